@@ -30,7 +30,7 @@ Qed.
 
 Example C14_close_during_dial :
   lrun (l0 0) [LConnLost; LRetryBegin; LUserClose; LDialDone true; LRetryBegin] =
-  Ok (mkL true true 1 0 false PhIdle [mkConn false true true true; mkConn false true true true] 1 0 0 0 0).
+  Ok (mkL true true 1 0 false PhIdle [mkConn false true true true; mkConn false true true true] 1 0 0 0 0 false).
 Proof. vm_compute. reflexivity. Qed.
 
 Print Assumptions C14_never_panics.
